@@ -18,6 +18,7 @@ import (
 	"math/rand"
 	"os"
 	"path/filepath"
+	"runtime"
 	"strings"
 	"sync"
 	"time"
@@ -174,10 +175,11 @@ type c14Reader struct {
 }
 
 func streamC14(h *H) {
+	runtime.GOMAXPROCS(4) // the machine is shared; the streams are not CPU hungry
 	c11InstallIndexFull()
 	root := MkTemp("c14-")
 	defer os.RemoveAll(root)
-	n := h.N(14, 1000)
+	n := h.N(12, 1200)
 	for i := 0; i < n; i++ {
 		c14Scenario(h, root, i)
 	}
@@ -205,7 +207,7 @@ func c14Scenario(h *H, root string, si int) {
 	var wtrees []*c11Tree
 	for w := 0; w < nw; w++ {
 		t := &c11Tree{dir: filepath.Join(dir, fmt.Sprintf("w%d", w)), hashes: map[string][32]byte{}}
-		c11Grow(h, t, w, 4+h.Intn(4))
+		c11Grow(h, t, w, 4+h.Intn(3))
 		if w > 0 && h.Bool() { // content shared between concurrent writers
 			for rel := range wtrees[0].hashes {
 				if h.Intn(4) == 0 {
@@ -243,10 +245,10 @@ func c14Scenario(h *H, root string, si int) {
 		{"restore", func(_ []string, _ string, tmp string) []string { return []string{"restore", "latest", "--target", tmp} }},
 		{"dump", func(_ []string, _ string, _ string) []string { return []string{"dump", "latest", "/"} }},
 		{"find", func(_ []string, _ string, _ string) []string { return []string{"find", "g0-f0"} }},
-		{"diff", func(olds []string, _ string, _ string) []string { return []string{"diff", olds[0], "latest"} }},
+		{"diff", func(olds []string, newest string, _ string) []string { return []string{"diff", olds[0], newest} }},
 		{"stats", func(_ []string, _ string, _ string) []string { return []string{"stats"} }},
 		{"check", func(_ []string, _ string, _ string) []string { return []string{"check", "--no-lock"} }},
-		{"cat", func(_ []string, _ string, _ string) []string { return []string{"cat", "tree", "latest"} }},
+		{"cat", func(_ []string, newest string, _ string) []string { return []string{"cat", "tree", newest} }},
 	}
 	type rrun struct {
 		proc, name string
@@ -265,8 +267,18 @@ func c14Scenario(h *H, root string, si int) {
 			proc := fmt.Sprintf("r%d", i)
 			tmp, _ := os.MkdirTemp(dir, "rst-")
 			cli := NewCLI(&c14Backend{Backend: be, s: sched, proc: proc, reader: true})
-			res := cli.RunCtx(ctx, rd.args(olds, baseTree.dir, tmp)...)
+			// `diff` and `cat tree` take explicit ids: the newest snapshot file there is right now
+			newest := olds[0]
+			for _, id := range c26SnapshotIDs(be) {
+				if !has(olds, id) {
+					newest = id
+				}
+			}
+			res := cli.RunCtx(ctx, rd.args(olds, newest, tmp)...)
 			res.Stdout = ""
+			if res.Err != nil {
+				res.Stderr = res.Err.Error() + " | " + firstLine(res.Stderr)
+			}
 			os.RemoveAll(tmp)
 			rruns = append(rruns, rrun{proc, rd.name, res})
 			if last || ctx.Err() != nil || i > 40 {
